@@ -110,12 +110,26 @@ def raising_block():
     return st.builds(lambda kind, items: {"k": kind, "items": items}, st.sampled_from(["or", "and"]), pair)
 
 
+def same_predicate_block():
+    """two SelectContext items that apply one predicate (the same function object) to different keys: they are
+    different selectors although they compare equal (Selector.__eq__ looks at the wrapped callable only)"""
+    def mk(kind, p, keys, roes, nota):
+        items = [{"k": "selctx", "key": k_, "notation": nota, "p": p, "roe": r} for k_, r in zip(keys, roes)]
+        d = {"k": kind, "items": items}
+        if kind in ("And", "Or"):
+            d["roe"] = None
+        return d
+    return st.builds(mk, st.sampled_from(["or", "and", "And", "Or"]), st.sampled_from(sorted(SUBPREDS)),
+                     st.permutations(["a", "a.b", "c", "d.e"]).map(lambda ks: ks[:2]),
+                     st.lists(st.booleans(), min_size=2, max_size=2), st.sampled_from(["str", "list", "dict"]))
+
+
 def spec_strat(depth):
     if depth == 0:
-        return st.one_of(leaf_strat(), leaf_strat(), leaf_strat(), raising_block())
+        return st.one_of(leaf_strat(), leaf_strat(), leaf_strat(), raising_block(), same_predicate_block())
     sub = spec_strat(depth - 1)
     return st.one_of(
-        leaf_strat(), leaf_strat(), raising_block(),
+        leaf_strat(), leaf_strat(), raising_block(), same_predicate_block(),
         st.builds(lambda items: {"k": "or", "items": items}, st.lists(sub, max_size=3)),
         st.builds(lambda items: {"k": "and", "items": items}, st.lists(sub, max_size=3)),
         st.builds(lambda s, r: {"k": "not", "spec": s, "roe": r}, sub, st.booleans()),
@@ -535,7 +549,7 @@ def groupby_case(draw):
     return {"listed": [[list(p), k] for p, k in listed], "contexts": ctxs,
             "with_data": with_data, "shuffle_keys": draw(st.booleans()),
             "second_round": draw(st.integers(0, 3)) > 0, "rotate": draw(st.integers(0, 7)),
-            "key_order": draw(st.sampled_from(["listed", "reversed", "longest_first"]))}
+            "key_order": draw(st.sampled_from(["listed", "reversed", "longest_first"])), "spelling": draw(st.sampled_from([0, 0, 1, 2, 3, 4]))}
 
 
 def _prune(d):
@@ -565,7 +579,18 @@ def judge_groupby(case):
     elif order == "longest_first":
         group_by = tuple(sorted(group_by, key=lambda k_: (-len(k_), k_)))
         merge = tuple(sorted(merge, key=lambda k_: (-len(k_), k_)))
-    gb = GroupBy(group_by=group_by, merge=merge)
+    # spellings of the same key sets: a single key as a bare string, an empty set as (), [], set()
+    sp = case.get("spelling", 0)
+    gb_arg, m_arg = group_by, merge
+    if sp and len(group_by) == 1:
+        gb_arg = group_by[0]
+    if sp and len(merge) == 1 and sp % 2:
+        m_arg = merge[0]
+    if sp and not merge:
+        m_arg = [(), [], set(), frozenset()][sp % 4]
+    if sp and not group_by and merge:
+        gb_arg = [(), [], set(), frozenset()][sp % 4]
+    gb = GroupBy(group_by=gb_arg, merge=m_arg)
     res = _judge_round(gb, case, case["contexts"], listed, group_by, merge)
     # a second round on the same element after reset(): it starts with the context that was filled last
     # (and with one of each group), and is judged like the first
